@@ -74,6 +74,7 @@ CHECKS = {
     "C09": {
         "parts": [
             {"test": "TestC09", "quick": 12000, "thorough": 200000, "shards": 16, "quick_shards": 2},
+            {"test": "TestC09OpenCells", "rapid": False, "quick": 0, "thorough": 0, "shards": 1},
             {"test": "TestC09Files", "quick": 300, "thorough": 1500, "shards": 16, "quick_shards": 2},
         ],
         "assumptions": ["process code terminates and subroutines consume before recursing (by construction); zero divisors (K1) and branch-typed variables (K2) excluded by construction, mutants that hit them are counted by signature",
